@@ -20,6 +20,7 @@
   (lean/Drivers/C17.lean) reports a divergence whenever the real code takes a step the guards forbid.
 -/
 import Babylon.Pages.Comp
+import Babylon.Pages.View
 
 namespace Babylon.Properties.C17
 open Babylon.Pages Babylon.Core Babylon.Gen.Pages
@@ -276,6 +277,40 @@ theorem pool_overflow_destroyed (c : Cfg) (s s' : State) (t : Tid) (tok : Tok) (
       o ∉ toks c s' ∧ (s'.th t).pc = .retWait := by
   obtain ⟨o, hpg, hl, hr, hpc', hperm⟩ := pDestroy_step ht hpc hstep
   exact ⟨o, hpg, hl, hr, returned_upstream_is_gone c s s' h (Step.thread t tok spur l ht hstep) o hperm, hpc'⟩
+
+/-! ## Hand-off over the release/acquire view model (stale reads included) -/
+
+/-- **pool_handoff_view.**  Single-element path (strict pool `push` / `pop`, `try_pop`): the previous owner's
+releasing publication of the slot version, read by the new owner's acquiring load, transfers the previous
+owner's whole view: `(view of previous owner at push) ≤ (view of new owner after pop)`, it stays so, and any
+later read of an object cell by the new owner returns a message at least as new as the newest one the previous
+owner knew (its last write or a later one).  Negative controls (relaxed push / relaxed pop admit the stale
+read) are `example … := by decide` in Babylon/Pages/View.lean. -/
+theorem pool_handoff_view (m0 : MemView.Mem View.Loc) (a b : Nat) (oPush oPop : Core.Ord) (ver : Nat)
+    {m2 m3 m4 m5 : MemView.Mem View.Loc} {v' : Nat}
+    (hrel : oPush.releases = true) (hacq : oPop.acquires = true)
+    (hext : (m0.write a .slot oPush ver).Ext m2)
+    (hpop : m2.read b .slot oPop (m0.len .slot) = some (m3, v'))
+    (hlater : m3.Ext m4) (k : Nat) (o : Core.Ord) (ts w : Nat) (huse : m4.read b (.cell k) o ts = some (m5, w)) :
+    v' = ver ∧ (m0.tv a).cur ≤ (m3.tv b).cur ∧ (m0.tv a).cur ≤ (m4.tv b).cur ∧ ((m0.tv a).cur).get (.cell k) ≤ ts :=
+  View.pool_handoff_view m0 a b oPush oPop ver hrel hacq hext hpop hlater k o ts w huse
+
+/-- **pool_handoff_view_fences.**  Batch / compensating paths (page caches, thread-buffer spill and refill
+through the shared queue, auto-mode pool): release fence + relaxed version store on the giving side, relaxed
+version load + acquire fence on the taking side — same conclusion. -/
+theorem pool_handoff_view_fences (m0 : MemView.Mem View.Loc) (a b : Nat) (ver : Nat)
+    {m2 m3 m4 m5 m6 : MemView.Mem View.Loc} {v' : Nat}
+    (hext : ((m0.fence a .rel).write a .slot .rlx ver).Ext m2)
+    (hpop : m2.read b .slot .rlx (m0.len .slot) = some (m3, v'))
+    (hmid : m3.Ext m4) (hlater : (m4.fence b .acq).Ext m5)
+    (k : Nat) (o : Core.Ord) (ts w : Nat) (huse : m5.read b (.cell k) o ts = some (m6, w)) :
+    v' = ver ∧ (m0.tv a).cur ≤ ((m4.fence b .acq).tv b).cur ∧ ((m0.tv a).cur).get (.cell k) ≤ ts :=
+  View.pool_handoff_view_fences m0 a b ver hext hpop hmid hlater k o ts w huse
+
+/-- the orders and fences these two theorems need are the ones written in the source -/
+theorem gen_handoff_orders :
+    ordDealSetVer.releases = true ∧ ordDealXchg.releases = true ∧ ordTry1SetVer.releases = true ∧
+    ordDealWait.acquires = true ∧ ordTry1Ver.acquires = true := View.codeOrds_ok
 
 /-! ## Non-vacuity -/
 
